@@ -349,7 +349,7 @@ fn life_after_recovery(hs: &mut Harness, loads: &[(Vec<u8>, Option<Vec<u8>>)]) -
         hs.apply(op)?;
         hs.check_reads("a follow-up operation on the recovered store")?;
     }
-    if !driver::rd_predicate(&hs.levels()) {
+    if !driver::rd_predicate_prestate(&hs.levels()) {
         hs.close();
         hs.reopen_raw()?;
         hs.check_reads("reopening the recovered store after follow-up writes")?;
